@@ -345,6 +345,25 @@ func (p *Program) Roots(set string) ([]*ssa.Function, error) {
 		}
 		out = append(out, ms...)
 		out = append(out, p.exportedFuncsAndClosures("fhirpath/evalopts")...)
+		// methods reached only through reflection (system/cmp.go looks up
+		// "TryEqual"/"Equal" with MethodByName): invisible to the call graph
+		if sp := p.SSAPkg[mod+"/fhirpath/system"]; sp != nil {
+			var names []string
+			for n := range sp.Members {
+				names = append(names, n)
+			}
+			sort.Strings(names)
+			for _, n := range names {
+				if _, ok := sp.Members[n].(*ssa.Type); !ok {
+					continue
+				}
+				for _, m := range p.exportedMethods("fhirpath/system", n) {
+					if m.Name() == "TryEqual" || m.Name() == "Equal" {
+						out = append(out, m)
+					}
+				}
+			}
+		}
 	case "patch":
 		ms := p.exportedMethods("fhirpath/patch", "Expression")
 		if len(ms) < 5 {
